@@ -295,6 +295,12 @@ func (sc *Scope) lookupIdent(name string) (specVal, bool) {
 				phi := fc.lookupIn(sc.curEnv(), fc.phiVar(li.rangeIdx))
 				return specVal{t: T(SInt, "(+ %s 1)", phi.S), ty: tInt}, true
 			}
+			if li.rangeCell != nil {
+				if v, ok := fc.vals[li.rangeCell]; ok && v.P != nil {
+					c := fc.lookupIn(sc.curEnv(), v.P.Var)
+					return specVal{t: T(SInt, "(+ %s 1)", c.S), ty: tInt}, true
+				}
+			}
 			if li.rangeInstr != nil {
 				if me := fc.mapEnums[li.rangeInstr]; me != nil {
 					return specVal{t: fc.lookupIn(sc.curEnv(), me.iter), ty: tInt}, true
@@ -335,6 +341,9 @@ func (sc *Scope) lookupIdent(name string) (specVal, bool) {
 	for _, fv := range fn.FreeVars {
 		if fv.Name() == name {
 			et := fv.Type().Underlying().(*types.Pointer).Elem()
+			if v := fc.vals[fv]; v.P != nil {
+				return specVal{p: v.P, ty: et}, true
+			}
 			return specVal{p: fc.placeOfPtr(fc.vals[fv].T, et), ty: et}, true
 		}
 	}
@@ -516,7 +525,7 @@ func (sc *Scope) tr(e Expr) (Term, types.Type) {
 				}
 			}
 			dom, val, _ := fc.mapVars(tt)
-			has := Select(Select(fc.lookupIn(sc.curEnv(), dom), xt), it)
+			has := And(T(SBool, "(not (= %s 0))", xt.S), Select(Select(fc.lookupIn(sc.curEnv(), dom), xt), it))
 			return Ite(has, Select(Select(fc.lookupIn(sc.curEnv(), val), xt), it), u.Zero(tt.Elem())), tt.Elem()
 		case *types.Basic:
 			return T(SInt, "(str.to_code (str.at %s %s))", xt.S, it.S), tByte
